@@ -14,6 +14,9 @@
 #include <fcppt/container/grid/moore_neighbors.hpp>
 #include <fcppt/container/grid/neumann_neighbors.hpp>
 #include <fcppt/container/grid/pos.hpp>
+#include <fcppt/container/grid/make_spiral_range.hpp>
+#include <fcppt/container/grid/spiral_iterator_impl.hpp>
+#include <fcppt/container/grid/spiral_range_impl.hpp>
 #include <fcppt/enum/make_range.hpp>
 #include <fcppt/enum/make_range_start.hpp>
 #include <fcppt/enum/make_range_start_end.hpp>
@@ -140,6 +143,13 @@ DRV(drv_ranges)
   (void)g::neumann_neighbors(drv::clv<g::pos<int, 2>>());
   (void)g::moore_neighbors(drv::clv<g::pos<unsigned, 2>>());
   (void)g::neumann_neighbors(drv::clv<g::pos<unsigned, 2>>());
+  {
+    auto const sr{g::make_spiral_range(drv::clv<g::pos<int, 2>>(), drv::make<int>())};
+    auto it{sr.begin()};
+    (void)(it == sr.end());
+    ++it;
+    (void)*it;
+  }
   std::vector<int> &v{drv::lv<std::vector<int>>()};
   auto const r{fcppt::iterator::adapt_range(v)};
   (void)r.begin();
